@@ -53,7 +53,7 @@ func TestC15(t *testing.T) {
 	defer m.Done()
 	variant := os.Getenv("VERIF_VARIANT")
 	purego := strings.Contains(variant, "purego")
-	m.Rule("case i = (mode, memory class, lanes, keyLen) taken from a fixed full-cycle enumeration of {argon2i,argon2id} × {m<8p, m multiple of 4p, m not a multiple of 4p, m just above 8p, segment length > 128} × lanes {1,2,3,4,5,8,16} × keyLen {1,4,16,31,32,33,63,64,65,96,97,128,129,300} (pure function of i, so every class is hit whatever the seed), with the seed choosing t in 1..3, the memory value inside its class, password (empty / 1..64 / 200 bytes) and salt (empty / 8 / 16 / 1..64 / 200 bytes); thorough adds lanes {6,7,31,32,64,128,255} and random keyLen 1..300. Each case is run on every block-function path of the build (SSE4.1 and SSE2 fallback in the default build, pure Go in the purego build) and each output is compared with the single-threaded RFC 9106 reference (h/ref/argon2ref); libgcrypt (non-empty pw/salt) and libsodium (1 lane, 16-byte salt, m>=8, keyLen>=16) are computed alongside and must agree with the reference, else the case is inconclusive. For m < 8p the reference uses 8p blocks while hashing the requested m (the property's statement). distinct = (mode, path, memory class, lanes, keyLen class, pw/salt emptiness); every case reaches the oracle, so every case is non-trivial")
+	m.Rule("case i = (mode, memory class, lanes, keyLen) taken from a fixed full-cycle enumeration of {argon2i,argon2id} × {m<8p, m multiple of 4p, m not a multiple of 4p, m just above 8p, segment length > 128} × lanes {1,2,3,4,5,8,16} × keyLen {1,4,16,31,32,33,63,64,65,96,97,128,129,300} (pure function of i, so every class is hit whatever the seed), with the seed choosing t in 1..3, the memory value inside its class, password (empty / 1..64 / 200 bytes) and salt (empty / 8 / 16 / 1..64 / 200 bytes); thorough adds lanes {6,7,31,32,64,128,255} and random keyLen 1..300. Each case is run on every block-function path of the build (SSE4.1 and SSE2 fallback in the default build, pure Go in the purego build) and each output is compared with the single-threaded RFC 9106 reference (h/ref/argon2ref); libgcrypt (non-empty pw/salt) and libsodium (1 lane, 16-byte salt, m>=8, keyLen>=16) are computed alongside and must agree with the reference, else the case is inconclusive. For m < 8p the reference uses 8p blocks while hashing the requested m (the property's statement). distinct = (mode, path, memory class, lanes, keyLen class, pw/salt emptiness); every case reaches the oracle, so every case is non-trivial. Password and salt are passed as guarded copies (exact capacity or spare capacity with a sentinel) that must be unchanged afterwards; the last 9 returned keys are kept and re-verified after later calls")
 	m.Assume("h/ref/argon2ref (own BLAKE2b per RFC 7693, H', G, indexing per RFC 9106 §3) passes the RFC 9106 §5 vectors and the phc-winner-argon2 vectors and agrees with libgcrypt and libsodium in its unit test; libgcrypt GCRY_KDF_ARGON2 passes the same vectors (h/clib/gcryptkdf test)")
 	m.Assume("the Go race detector observes the lane goroutines (registry: race=true); data-race reports are turned into violations by the driver")
 
@@ -93,6 +93,7 @@ func TestC15(t *testing.T) {
 		}
 	}
 
+	kept := newRetained(m, "argon2", 9)
 	m.Cases("main", total, func(i int64, r *rand.Rand) {
 		mode, mc, li, ki := c15Combo(i)
 		p := c15Lanes[li]
@@ -223,7 +224,10 @@ func TestC15(t *testing.T) {
 		outs := map[string][]byte{}
 		for _, pa := range paths {
 			pa.set()
-			got := fn(append([]byte(nil), pw...), append([]byte(nil), salt...), tm, mem, p, kl)
+			gp, gs := newGbuf(pw, gbufSpare()), newGbuf(salt, gbufSpare())
+			got := fn(gp.S(), gs.S(), tm, mem, p, kl)
+			checkInputs(m, modeName+":"+pa.name, wit, map[string]*gbuf{"password": gp, "salt": gs})
+			kept.add(got, fmt.Sprintf("case %d path %s", i, pa.name))
 			outs[pa.name] = got
 			m.Eval()
 			m.Count("path:"+pa.name, 1)
@@ -246,6 +250,8 @@ func TestC15(t *testing.T) {
 			wit["sse4"], wit["sse2"] = mon.Hex(outs["sse4"]), mon.Hex(outs["sse2"])
 			m.Violation("path-divergence:"+modeName+":sse4-vs-sse2", wit)
 		}
+		// keys returned by earlier calls (this case's and the previous cases') must not have changed
+		kept.recheck()
 		// evidence counters for the classes the property's quantifier names
 		m.Count(fmt.Sprintf("mode:%d", mode), 1)
 		m.Count("mem:"+c15MemCls[mc], 1)
@@ -293,6 +299,9 @@ func TestC15(t *testing.T) {
 		m.Gate("path:"+pa.name, total, "every case was run on this block-function path")
 	}
 	_ = np
+	m.Gate("input_immutability_checks", 2*total, "password and salt slices (guarded copies, with and without spare capacity) compared with their snapshot after every call")
+	m.Gate("input_immutability_checks_with_spare_capacity", total/2, "of which slices with cap > len whose spare capacity carries a sentinel")
+	m.Gate("retained_outputs_rechecked", total, "keys returned by earlier calls re-verified after later calls")
 	m.Gate("empty_password", total/16, "empty passwords forced by index")
 	m.Gate("empty_salt", total/16, "empty salts forced by index")
 	m.Gate("witness:libgcrypt", total/4, "libgcrypt computed the same case and agreed with the reference")
